@@ -3,7 +3,7 @@ CONSTANTS
   MaxNodes = 12
   Keys = {1, 2}
   Leafs = {101, 160, 170}
-  Shapes = {200, 211, 220}
+  Shapes = {200, 211, 220, 223}
   MaxLen = 2
   Acts = {"clone"}
   Mirror = FALSE
